@@ -51,6 +51,12 @@ CLAIMED = {
  "C01": ("must-lockset at the strategy call sites + all-paths counter typestate with closure/bound-method resolution + branch-fact comparator check + bound proof (>= 1) over go/ssa; linearisation argument on paper",
          "Static premises of the atomic gate: TryAcquire and post-construction SetLimit on a limiter's strategy run under the limiter's exclusive mutex; in the simple and precise strategies every grant increments the in-flight counter by 1 once, refusals write nothing, the token's release function (resolved through bound methods / closure factories) decrements that same counter by 1 once, no other writer; grant iff counter < limit and refuse iff counter >= limit on the strategy's own fields; every stored limit is proved >= 1; results agree with ok. The step from these premises to the gate property is the paper argument in DESIGN.md 5/C01.",
          "5/C01"),
+ "C10": ("must-lockset at predicate / wait / signal sites (cond-var discipline incl. lock hand-over), all-paths completion->wake-up and retry checks, critical-section and channel-capacity analysis of the queue hand-off over go/ssa",
+         "Static protocol discipline sufficient to exclude lost wake-ups: the failed delegate.Acquire and the registration on the condition are one critical section of the condition's lock (handed to the waiting goroutine, whose first action is Wait), every Broadcast is issued under that lock after the delegate's completion (Signal rejected), every completion of a wrapping listener reaches the wake-up, a signalled waiter re-tries; in the queue limiter attempt + bound check + enqueue are one exclusive critical section with unblock, delivery to a queued waiter cannot be refused (capacity >= 1), eviction only with a token in hand, give-up paths drain under the mutex. Decided for all interleavings because locksets are schedule-independent; fairness and limit-increase wake-ups are not covered.",
+         "5/C10"),
+ "C12": ("dominating branch-fact bound check + must-lockset + eviction typestate through the select cases and helper summaries + gauge provenance over go/ssa",
+         "Static: the enqueue is reachable only with backlog length < configured (defaulted) maximum, checked and enqueued in one exclusive critical section, the full edge refuses at once without blocking; after the enqueue every give-up path evicts the caller's own element exactly once and the hand-off path relies on the sender, which evicts exactly once before delivering; the reported size is the list's own length under the queue mutex; queue_size/queue_limit gauges are wired to that accessor and to the configured bound. Numeric equality at every instant of a concurrent history is their consequence, not separately decided.",
+         "5/C12"),
 }
 
 PENDING_REASON = "check not built yet in this session; see DESIGN.md section 5 for the planned static obligations"
